@@ -53,7 +53,7 @@ class G(object):
         self.comments = rng.random() < 0.3       # XML comments / processing instructions sprinkled in
         self.odd_names = rng.random() < 0.3     # names / symbols / texts with non-ASCII and escaped characters
         self.foreign = opts.get('foreign') if opts.get('foreign') is not None else rng.random() < 0.4
-        self.foreign_ns = opts.get('foreign_ns') or FOREIGN_NS
+        self.foreign_ns = opts.get('foreign_ns') or (ns + '/extensions/acme' if rng.random() < 0.3 else FOREIGN_NS)
         self.prefix = ''
         pf = opts.get('prefixed')
         if pf or (pf is None and rng.random() < 0.1):
@@ -161,6 +161,16 @@ class G(object):
 
     def pad(self, tok):
         return tok if not self.odd_ws else self.rng.choice(['', ' ', '\n']) + tok + self.rng.choice(['', ' ', '\t'])
+
+    def mimic_extra(self, p=0.2):
+        """an <extra> whose foreign-namespace content looks like what the loader searches <extra> for
+        (double_sided, bump texture): it is not COLLADA content and must not leak into the model"""
+        if not (self.foreign and self.chance(p)):
+            return ''
+        inner = ('<m:double_sided>1</m:double_sided><m:bump><m:texture texture="nosuchsampler" texcoord="LEAK"/></m:bump>'
+                 '<m:technique><m:double_sided>1</m:double_sided></m:technique>')
+        return self.el('extra', [], self.el('technique', [('profile', 'MIMIC')], inner),
+                       extra_decl=' xmlns:m="%s"' % esc(self.foreign_ns))
 
     def maybe_extra(self, p=0.15):
         return self.extra() if self.chance(p) else ''
@@ -370,7 +380,8 @@ def render_geometry(g, geom):
     if geom['double_sided'] is not None:
         gextra = g.el('extra', [], g.el('technique', [('profile', 'MAYA')],
                                         g.el('double_sided', [], geom['double_sided'])))
-    return g.el('geometry', [('id', geom['id']), ('name', geom['name'])], g.asset_child() + g.el('mesh', [], ''.join(parts)) + gextra)
+    return g.el('geometry', [('id', geom['id']), ('name', geom['name'])],
+                g.asset_child() + g.el('mesh', [], ''.join(parts)) + (g.mimic_extra() if g.chance(0.5) else '') + gextra + g.mimic_extra(0.1))
 
 
 # --------------------------------------------------------------------------- lights, cameras, images, effects
@@ -463,10 +474,15 @@ def gen_effect(g, images):
     names = [p for p in ALL_PROPS if g.chance(0.55)]
     if g.chance(0.3):
         rng.shuffle(names)
+    direct = images and not samplers and g.chance(0.3)      # the exporter shortcut: <texture texture="image id">
+    E['direct_texture'] = bool(direct)
     for nme in names:
         r = rng.random()
         iscol = nme in COLOR_PROPS
-        if samplers and iscol and r < 0.3:
+        if direct and iscol and r < 0.5:
+            val = ['texture', rng.choice(images)['id'], rng.choice(['UVSET0', 'CHANNEL1'])]
+            E['uses_direct'] = True
+        elif samplers and iscol and r < 0.3:
             val = ['texture', rng.choice(samplers), rng.choice(['UVSET0', 'CHANNEL1', 'TEX0'])]
         elif E['floatparams'] and r < 0.45:
             cands = [fp for fp in E['floatparams'] if fp['n'] == (4 if iscol else 1)]
@@ -523,7 +539,8 @@ def render_effect(g, E):
     if E['bump'] is not None:
         tech += g.el('extra', [], g.el('technique', [('profile', 'FCOLLADA')],
                                        g.el('bump', [], g.el('texture', [('texture', E['bump'][0]), ('texcoord', E['bump'][1])]))))
-    body += g.el('technique', [('sid', 'common')], tech)
+    body += g.el('technique', [('sid', 'common')], tech + g.mimic_extra(0.1))
+    body += g.mimic_extra()
     if E['double_sided'] is not None:
         body += g.el('extra', [], g.el('technique', [('profile', 'GOOGLEEARTH')], g.el('double_sided', [], g.pad(E['double_sided']))))
     return g.el('effect', [('id', E['id']), ('name', g.word() if g.chance(0.4) else None)],
@@ -893,6 +910,7 @@ def gen_document(rng, size=1, ns=NS_141, **opts):
     decl = ' xmlns:c="%s"' % ns if g.prefix else ' xmlns="%s"' % ns
     xml = '<?xml version="1.0" encoding="utf-8"?>\n' + g.el('COLLADA', [('version', '1.4.1')], body, extra_decl=decl)
     D['prefixed'] = bool(g.prefix)
+    D['repair_paths'] = any(e.get('uses_direct') for e in D['effects'])
     D['foreign'] = bool(g.foreign)
     return xml.encode('utf-8'), D
 
